@@ -327,7 +327,7 @@ class ReportMergeResults:
         return True
 
 
-@contract(M + "perform_merge", props=["C20"],
+@contract(M + "perform_merge", no_selftest=True, props=["C20"],
           types=dict(output_path=PathT, preset=Str, output=Str, generate_config_fn=UFCallable("generate_config"),
                      existing_content=Str, existing_config=Any, template_sections=Dict, missing_names=SeqOf(Str),
                      missing_sections=Any, merged_content=Str),
